@@ -134,3 +134,105 @@ def compare(ctx, stream, reqs):
         if 'err' in a:
             ctx.count('err:' + a['err'])
     return code, model
+
+
+def wrapper_tt(c):
+    """(inputs, outputs, truth table rows) of a generated circuit"""
+    return list(c.inputs), list(c.outputs), [list(r) for r in c.get_truth_table()]
+
+
+def bits_value(bits, big_endian):
+    bits = list(bits)[::-1] if big_endian else list(bits)
+    return sum((1 << i) for i, b in enumerate(bits) if b)
+
+
+def check_generate_mul(ctx, sizes):
+    """`generate_mul(n, m, type=mode, big_endian=be)`: the public entry with MulMode — inputs a then b, outputs the product"""
+    import itertools
+    from cirbo.synthesis.generation.arithmetics import multiplication as M
+    for mode in M.MulMode:
+        for (n, m) in sizes:
+            for be in (False, True):
+                ctx.case(json.dumps(['generate_mul', mode.name, n, m, be]))
+                ctx.count('generate_mul:' + mode.name)
+                try:
+                    c = M.generate_mul(n, m, type=mode, big_endian=be)
+                except Exception as e:  # noqa: BLE001
+                    ctx.violation('mul.generate_raises', f'generate_mul({n},{m},{mode.name},big_endian={be}) raised {err_name(e)}',
+                                  input={'n': n, 'm': m, 'mode': mode.name, 'be': be})
+                    continue
+                if len(c.inputs) != n + m:
+                    ctx.violation('mul.generate_shape', f'generate_mul({n},{m},{mode.name}) has {len(c.inputs)} inputs', input={'n': n, 'm': m, 'mode': mode.name})
+                    continue
+                want_w = (n + m - 1) if min(n, m) == 1 else n + m
+                if len(c.outputs) != want_w:
+                    ctx.violation('mul.generate_width', f'generate_mul({n},{m},{mode.name},big_endian={be}) returns {len(c.outputs)} bits, expected {want_w}',
+                                  input={'n': n, 'm': m, 'mode': mode.name, 'be': be})
+                for bits in itertools.product((False, True), repeat=n + m):
+                    out = c.evaluate(list(bits))
+                    a, b = bits_value(bits[:n], be), bits_value(bits[n:], be)
+                    got = bits_value(out, be)
+                    if got != a * b:
+                        ctx.violation('mul.generate_value', f'generate_mul({n},{m},{mode.name},big_endian={be}): a={a}, b={b}: got {got}',
+                                      input={'n': n, 'm': m, 'mode': mode.name, 'be': be, 'a': a, 'b': b})
+                        break
+
+
+def check_generate_weighted(ctx, rng, count):
+    """`generate_sum_weighted_bits_{efficient,naive}(weights, basis=)` = bare circuit + the add_ function + set_outputs"""
+    from cirbo.core.circuit import Circuit
+    from cirbo.synthesis.generation.arithmetics import summation as S
+    for _ in range(count):
+        n = rng.randint(1, 7)
+        ws = [rng.randint(0, rng.choice([0, 2, 4])) for _ in range(n)]
+        basis = rng.choice(['XAIG', 'AIG'])
+        for gen_fn, add_fn, nm in ((S.generate_sum_weighted_bits_efficient, S.add_sum_n_weighted_bits, 'efficient'),
+                                   (S.generate_sum_weighted_bits_naive, S.add_sum_n_weighted_bits_naive, 'naive')):
+            ctx.case(json.dumps(['generate_weighted', nm, ws, basis]))
+            ctx.count('generate_weighted:' + nm)
+            try:
+                c = gen_fn(ws, basis=basis)
+                d = Circuit.bare_circuit(n)
+                res = add_fn(d, [(w, l) for w, l in zip(ws, d.inputs)], basis=basis)
+            except Exception as e:  # noqa: BLE001
+                ctx.violation('sum.generate_raises', f'generate_sum_weighted_bits_{nm}({ws}, {basis}) raised {err_name(e)}', input={'weights': ws, 'basis': basis})
+                continue
+            d.set_outputs([r[1] for r in res])
+            levels = [r[0] for r in res]
+            if list(c.inputs) != list(d.inputs) or c.get_truth_table() != d.get_truth_table():
+                ctx.violation('sum.generate_differs', f'generate_sum_weighted_bits_{nm}({ws}, {basis}) differs from add_ on a bare circuit', input={'weights': ws, 'basis': basis})
+                continue
+            # and the value, using the levels the add_ function reported
+            tt = c.get_truth_table()
+            for row in range(1 << n):
+                bits = [(row >> (n - 1 - i)) & 1 for i in range(n)]
+                want = sum(b << w for b, w in zip(bits, ws))
+                got = sum((1 << lv) for lv, r in zip(levels, tt) if r[row])
+                if want != got:
+                    ctx.violation('sum.generate_value', f'generate_sum_weighted_bits_{nm}({ws}, {basis}): inputs {bits} sum to {want}, outputs decode to {got}',
+                                  input={'weights': ws, 'basis': basis, 'bits': bits})
+                    break
+
+
+def check_generate_ite(ctx):
+    import itertools
+    from cirbo.synthesis.generation import generation as GG
+    ctx.count('generate_if_then_else')
+    c = GG.generate_if_then_else()
+    if list(c.inputs) != ['if', 'then', 'else'] or len(c.outputs) != 1:
+        ctx.violation('gadget.generate_ite_shape', f'generate_if_then_else: inputs {c.inputs}, outputs {c.outputs}', input={})
+    else:
+        for i, t, e in itertools.product((False, True), repeat=3):
+            if c.evaluate([i, t, e]) != [t if i else e]:
+                ctx.violation('gadget.generate_ite_value', f'generate_if_then_else({i},{t},{e}) = {c.evaluate([i, t, e])}', input={'bits': [i, t, e]})
+    for n in (1, 2, 3):
+        ctx.count('generate_pairwise_if_then_else')
+        c = GG.generate_pairwise_if_then_else(n)
+        if len(c.inputs) != 3 * n or len(c.outputs) != n:
+            ctx.violation('gadget.generate_ite_shape', f'generate_pairwise_if_then_else({n}): {len(c.inputs)} inputs, {len(c.outputs)} outputs', input={'n': n})
+            continue
+        for bits in itertools.product((False, True), repeat=3 * n):
+            want = [bits[n + k] if bits[k] else bits[2 * n + k] for k in range(n)]
+            if c.evaluate(list(bits)) != want:
+                ctx.violation('gadget.generate_ite_value', f'generate_pairwise_if_then_else({n}) on {bits}: {c.evaluate(list(bits))}, expected {want}', input={'n': n, 'bits': list(bits)})
+                break
